@@ -362,6 +362,10 @@ def resolve_selection(lst, sel, rng):
             r = nrows - 1
         else:
             r = rc % nrows
+        sk = SPEC[tname][0].upper() + 'SHORT'
+        short_rows = sorted(getattr(lst, 'short_indices', {}).get(sk, {}))
+        if short_rows and mode % 8 in (5, 6, 7) and not t.row_line:
+            r = short_rows[rc % len(short_rows)] % nrows      # a row that short output prints
         col = t.column_name[cc % t.num_columns]
         ci = t._col[col]
         sign = 1.0
@@ -656,6 +660,7 @@ class HistoryMachine(ListingBase):
         k = {'tier': tier}
         k['nops'] = rng.choice((1, 1, 2, 3, 5))
         k['plus_bias'] = rng.random() < 0.25        # the four TOUGH+ files always well covered
+        k['short_bias'] = (not k['plus_bias']) and rng.random() < 0.25   # AUTOUGH2 short output
         return k
 
     @classmethod
@@ -681,6 +686,11 @@ class HistoryMachine(ListingBase):
             cat = catalogue(self.tier)
             if ctx.knobs.get('plus_bias'):
                 cat = [f for f in cat if f.startswith('TOUGHplus')] or cat
+            elif ctx.knobs.get('short_bias'):
+                cat = [f for f in cat if f in ('AUTOUGH2/3/case3.listing',
+                                               'AUTOUGH2/5/case5.listing',
+                                               'AUTOUGH2/6/case6.listing',
+                                               'AUTOUGH2/7/case7.listing')] or cat
             rel = cat[ch[0] % len(cat)]
             data = image(rel)
             if self.lst is not None:
@@ -777,6 +787,28 @@ class HistoryMachine(ListingBase):
                         raise Violation('H2', '%s: item %r: the values at full result times %r '
                                         'differ from stepping %r' % (what, item, list(sub[:4]),
                                                                      list(step_series[:4])))
+                    if not np.array_equal(times, alltimes):
+                        raise Violation('H2.times', '%s: item %r with short output is not paired '
+                                        'with the times of all result sets' % (what, item))
+                    # values at short-output-only times: an independent reading of the short
+                    # table row with that key
+                    poss = list(lst._pos)
+                    checked = 0
+                    for k, is_short in enumerate(lst._short):
+                        if not is_short:
+                            continue
+                        span = (poss[k], poss[k + 1] if k + 1 < len(poss) else len(self.data))
+                        rows = [L for L in locate_rows(self.data, lst, None, span=span)
+                                if L.table == tname and L.row == r and L.full]
+                        if len(rows) != 1:
+                            continue
+                        want = sign * F.fread(rows[0].tail[ci][1])
+                        checked += 1
+                        if not (want == vals[k] or (want != want and vals[k] != vals[k])):
+                            raise Violation('H2.short', '%s: item %r at short-output result set '
+                                            '%d gives %r, the short table prints %r'
+                                            % (what, item, k, vals[k], rows[0].tail[ci][1]))
+                    ctx.probes['short_output_values_checked'] += checked
         ctx.fp.append(('H', self.rel, tuple(sorted(set(tabs))), tabs[0] if tabs else '', short,
                        before[0] > 0))
         ctx.digest.add('HISTORY', repr(arg), [hashlib.md5(np.asarray(v).tobytes()).hexdigest()
@@ -860,13 +892,16 @@ class Located(object):
     __slots__ = ('table', 'row', 'offset', 'line', 'tail', 'full')
 
 
-def locate_rows(data, lst, index, encoding='latin-1'):
+def locate_rows(data, lst, index, encoding='latin-1', span=None):
     """For result set `index` of the (unmodified) image: the data lines of every table the
     reader exposes, found by an independent scan.  Returns list of Located."""
     starts = sorted(lst._pos)
-    begin = lst._fullpos[index]
-    later = [p for p in starts if p > begin]
-    end = later[0] if later else len(data)
+    if span is not None:
+        begin, end = span
+    else:
+        begin = lst._fullpos[index]
+        later = [p for p in starts if p > begin]
+        end = later[0] if later else len(data)
     tabs = [(name, lst._table[name]) for name in lst._tablenames]
     hdrs = [(name, header_tokens(t.column_name)) for name, t in tabs]
     keysets = {}
